@@ -1,9 +1,8 @@
 // Facts for C10 (build actions see a hermetic, fully hashed environment):
 //
 //	envReads           every read of the process environment (os.Getenv / LookupEnv / Environ / ExpandEnv, syscall.Getenv)
-//	                   in the functions that compute or consume the action environment:
-//	                   src/core/build_env.go (all), config.go (getBuildEnv, GetBuildEnv, Hash), src/fs/home.go (all),
-//	                   src/process/*.go (all), src/build/build_step.go (all), src/build/incrementality.go (all)
+//	                   in every non-test, non-hook file of src/core, src/build, src/fs and src/process; Props/C10 compares
+//	                   the list with an explicit allowlist that says for each read why it is (or is not) on the path to an action
 //	envKeys            every key written into a BuildEnv in GeneralBuildEnvironment / TargetEnvironment /
 //	                   BuildEnvironment / toolsEnv / withUserProvidedEnv (literal keys and key expressions)
 //	cmdEnvAssignments  every assignment to an exec.Cmd's Env in src/process (must all be append(cmd.Env, …))
@@ -159,40 +158,40 @@ func keysOf(f *xlib.File, fns []string) [][2]string {
 }
 
 func main() {
+	// every non-test, non-hook Go file of the four packages the action environment is computed in
 	var reads []read
-	be := xlib.Parse("src/core/build_env.go")
-	reads = append(reads, scanReads(be, nil)...)
-	cfg := xlib.Parse("src/core/config.go")
-	reads = append(reads, scanReads(cfg, map[string]bool{"Configuration.getBuildEnv": true, "Configuration.GetBuildEnv": true, "Configuration.Hash": true})...)
-	reads = append(reads, scanReads(xlib.Parse("src/fs/home.go"), nil)...)
-	procFiles, _ := filepath.Glob(filepath.Join(xlib.Repo(), "src/process/*.go"))
-	sort.Strings(procFiles)
 	var cmdEnv []string
-	for _, p := range procFiles {
-		if strings.HasSuffix(p, "_test.go") {
-			continue
-		}
-		rel, _ := filepath.Rel(xlib.Repo(), p)
-		pf := xlib.Parse(rel)
-		reads = append(reads, scanReads(pf, nil)...)
-		ast.Inspect(pf.AST, func(n ast.Node) bool {
-			as, ok := n.(*ast.AssignStmt)
-			if !ok {
-				return true
-			}
-			for _, l := range as.Lhs {
-				if sel, ok := l.(*ast.SelectorExpr); ok && sel.Sel.Name == "Env" {
-					recv := pf.Src(sel.X)
-					src := strings.ReplaceAll(pf.Src(as), recv+".", "cmd.")
-					cmdEnv = append(cmdEnv, filepath.Base(rel)+": "+src)
-				}
-			}
-			return true
-		})
-	}
+	be := xlib.Parse("src/core/build_env.go")
 	bs := xlib.Parse("src/build/build_step.go")
-	reads = append(reads, scanReads(bs, nil)...)
-	reads = append(reads, scanReads(xlib.Parse("src/build/incrementality.go"), nil)...)
+	for _, dir := range []string{"src/core", "src/build", "src/fs", "src/process"} {
+		files, _ := filepath.Glob(filepath.Join(xlib.Repo(), dir, "*.go"))
+		sort.Strings(files)
+		for _, p := range files {
+			if strings.HasSuffix(p, "_test.go") || strings.HasSuffix(p, "_verif.go") || strings.HasSuffix(p, "_noverif.go") {
+				continue
+			}
+			rel, _ := filepath.Rel(xlib.Repo(), p)
+			pf := xlib.Parse(rel)
+			reads = append(reads, scanReads(pf, nil)...)
+			if dir != "src/process" {
+				continue
+			}
+			ast.Inspect(pf.AST, func(n ast.Node) bool {
+				as, ok := n.(*ast.AssignStmt)
+				if !ok {
+					return true
+				}
+				for _, l := range as.Lhs {
+					if sel, ok := l.(*ast.SelectorExpr); ok && sel.Sel.Name == "Env" {
+						recv := pf.Src(sel.X)
+						src := strings.ReplaceAll(pf.Src(as), recv+".", "cmd.")
+						cmdEnv = append(cmdEnv, filepath.Base(rel)+": "+src)
+					}
+				}
+				return true
+			})
+		}
+	}
 
 	keys := keysOf(be, []string{"GeneralBuildEnvironment", "TargetEnvironment", "BuildEnvironment", "toolsEnv", "withUserProvidedEnv"})
 
@@ -229,7 +228,48 @@ func main() {
 		}
 	}
 
+	// withUserProvidedEnv: are the entries of target.Env applied in sorted key order, or in map iteration order?
+	userEnvSorted := false
+	{
+		fd := be.Func("withUserProvidedEnv")
+		tgt := fd.Type.Params.List[0].Names[0].Name
+		var direct, collected, sorted, overKeys bool
+		keysVar := ""
+		for _, st := range fd.Body.List {
+			switch x := st.(type) {
+			case *ast.RangeStmt:
+				src := strings.ReplaceAll(be.Src(x.X), tgt+".", "target.")
+				if src == "target.Env" {
+					if x.Value != nil {
+						direct = true // for k, v := range target.Env { … env[k] = v }
+					} else if len(x.Body.List) == 1 {
+						if as, ok := x.Body.List[0].(*ast.AssignStmt); ok && len(as.Lhs) == 1 {
+							if id, ok := as.Lhs[0].(*ast.Ident); ok && strings.HasPrefix(be.Src(as.Rhs[0]), "append("+id.Name+", ") {
+								keysVar, collected = id.Name, true
+							}
+						}
+					}
+				} else if keysVar != "" && src == keysVar {
+					overKeys = true
+				}
+			case *ast.ExprStmt:
+				if keysVar != "" && (be.Src(x) == "sort.Strings("+keysVar+")" || be.Src(x) == "slices.Sort("+keysVar+")") && !overKeys {
+					sorted = true
+				}
+			}
+		}
+		switch {
+		case direct && !collected:
+			userEnvSorted = false
+		case collected && sorted && overKeys && !direct:
+			userEnvSorted = true
+		default:
+			xlib.Unreadable("withUserProvidedEnv: unrecognised iteration over target.Env")
+		}
+	}
+
 	var b strings.Builder
+	fmt.Fprintf(&b, "def userEnvSorted : Bool := %s\n", xlib.LeanBool(userEnvSorted))
 	b.WriteString("def envReads : List (String × String × String × String) := [\n")
 	for i, r := range reads {
 		fmt.Fprintf(&b, "  (%s, %s, %s, %s)", xlib.LeanStr(r.file), xlib.LeanStr(r.fn), xlib.LeanStr(r.callee), xlib.LeanStr(r.arg))
